@@ -1432,6 +1432,7 @@ def run_hist_impl(case, scratch):
         held = []          # (results object, materialised fixed, answer then)
         kept_children = []  # R16: (variation handed out earlier, names, exact values then)
         nnew = 0
+        last = None        # observation (without the partial files) made after the previous op, while still valid
         for op in case['ops']:
             hop = parse_hop(op)
             ob = {'kind': hop[0]}
@@ -1447,8 +1448,9 @@ def run_hist_impl(case, scratch):
                     tw.pos = runner.pos
                     tpart, tob = run_op(tw, 'all', tmp2)
                     twin = (tpart, tob['calls'])
-                part, ob2 = run_op(runner, op if hop[0] == 'all' else 'single:%d' % hop[1], tmp)
-                ob2.pop('after', None)
+                part, ob2 = run_op(runner, op if hop[0] == 'all' else 'single:%d' % hop[1], tmp,
+                                   last if tmp is None else None)      # (no partial files in this history)
+                last = dict(ob2.pop('after'), store={})
                 ob.update(ob2)
                 ob['twin'] = twin
                 ob['part'] = part
@@ -1459,11 +1461,13 @@ def run_hist_impl(case, scratch):
                     apply_content(content, hop, repmax, file_on)
                     res_content = (copy_content(content), dict(mat.kind))
             elif hop[0] == 'nq':
+                last = None
                 bad, ncalls = nonmutating_calls(runner, tmp)
                 ob['nonmutating_changed'] = bad
                 ob['ncalls'] = ncalls
                 part = 'nq=ok'
             elif hop[0] in ('rmax', 'file', 'del'):
+                last = None
                 if hop[0] == 'rmax':
                     repmax = hop[1]
                     runner.rep_max = mat.repmax(repmax)
@@ -1474,7 +1478,7 @@ def run_hist_impl(case, scratch):
                     runner.delete_partial_results_bool = hop[1]
                 part = 'a=ok'
             elif hop[0] in ('q', 'hq'):
-                before = observe(runner, tmp, with_store=False)
+                before = last or observe(runner, tmp, with_store=False)
                 mfx = mat.fixed(hop[1])
                 if hop[0] == 'hq':
                     if not simulated:
@@ -1541,19 +1545,22 @@ def run_hist_impl(case, scratch):
                             _show_pack(q['pack']), _show_pack(q['rv']) if simulated else '-')
                     ob.update({'q': q, 'fresh': qf, 'fixed': hop[1], 'content': copy_content(content),
                                'results_params_shared': rp is runner.params})
-                ch = diff_obs(before, observe(runner, tmp, with_store=False))
+                last = observe(runner, tmp, with_store=False)
+                ch = diff_obs(before, last)
                 if ch:
                     ob['lookup_changed_state'] = ch
                 mat.scribble()          # R16 (iii): the argument is modified right after the call
             elif hop[0] == 'pfill':
                 # R16: the caller refills, in place, the container it handed over earlier; no library call
+                last = None
                 mat.refill(hop[1], hop[2])
                 apply_content(content, hop)
                 part = ' ; '.join('p=ok' for _ in hop[1])
                 ob['status'] = 'ok'
                 ob['refilled'] = list(hop[1])
             else:
-                before = observe(runner, tmp, with_store=False)
+                before = last or observe(runner, tmp, with_store=False)
+                last = None
                 status = 'ok'
                 p = runner.params
                 try:
@@ -1577,7 +1584,8 @@ def run_hist_impl(case, scratch):
                 part = 'p=' + status
                 ob['status'] = status
                 if status != 'ok':
-                    ob['rejected_changed'] = diff_obs(before, observe(runner, tmp, with_store=False))
+                    last = observe(runner, tmp, with_store=False)
+                    ob['rejected_changed'] = diff_obs(before, last)
             ob['inputs_mutated'] = [w for w, o, sn in mat.inputs if snap(o) != sn]
             parts.append(part)
             obs['ops'].append(ob)
